@@ -110,10 +110,13 @@ class EventDispatcher:
             self._event_queue.append((event_name, args, kwargs))
             return
 
-        # Existance of the referents shall be guaranteed by the
-        # automatic cleanup
+        # Iterate on a copy, handlers may be added or removed by callbacks.
+        # For the same reason a referent may be gone by the time its turn
+        # comes (e.g. an earlier callback removed its owner): skip it
         for handler_ref, method_ref in set(self._events[event_name]):
-            method_ref(handler_ref(), *args, **kwargs)
+            handler = handler_ref()
+            if handler is not None:
+                method_ref(handler, *args, **kwargs)
 
     @property
     def dispatch_enabled(self) -> bool:
